@@ -363,8 +363,10 @@ def main(argv=None):
         'wall_s': round(wall, 2),
         'violations': len(violations),
     }
-    os.makedirs(os.path.join(VERIF, 'evidence'), exist_ok=True)
-    with open(os.path.join(VERIF, 'evidence', '%s.json' % prop_id), 'w') as fh:
+    evdir = os.environ.get('VERIF_EVIDENCE_DIR') or \
+        os.path.join(VERIF, 'evidence')
+    os.makedirs(evdir, exist_ok=True)
+    with open(os.path.join(evdir, '%s.json' % prop_id), 'w') as fh:
         json.dump(evidence, fh, indent=1, sort_keys=True, default=repr)
 
     for bucket, cnt in sorted(known_hits.items()):
